@@ -13,3 +13,5 @@ import DeepModel.Props.C04
 #print axioms C04.c04_conc_serial_count
 #print axioms C04.c04_conc_race_witness
 #print axioms C04.c04_conc_serial_example
+#print axioms C04.c04_count_per_installation
+#print axioms C04.c04_update_resets_witness
